@@ -395,7 +395,8 @@ def rand_optlist(rng, hostile=False):
         else:
             # unknown names, among them names that extend, truncate or decorate a recognised one
             opts.append((rng.choice([b"foo", b"multicast", b"blksize2", b"", b"tsizee", b"windowsize2", b"WindowSizeHint", b"windowsize ", b"windowsiz",
-                                     b"timeoutms", b"tsize64", b"blk", b"xblksize", b"blksize\xc3\xa9", b"windowsize-max"]),
+                                     b"timeoutms", b"tsize64", b"blk", b"xblksize", b"blksize\xc3\xa9", b"windowsize-max",
+                                     b"\xc4\xb0", b"\xc4\xb0\xc4\xb0", b"bl\xc4\xb0size", b"\xc8\xba", b"\xe1\xba\x9e", b"\xe2\x84\xa6"]),
                          rng.choice([b"1", b"x", b"", b"4", b"16", b"0", b"70000"])))
     return opts
 
@@ -444,6 +445,9 @@ class C09(ServerProp):
             for t in tv:
                 lines.append("timing %s %s srv/f=gen:20:1 %s" % (self.root(j), flags, rq("rrq", b"f", (("timeout", t), ("blksize", 8))).hex()))
                 j += 1
+            # no timeout option: the default interval (5 s) applies - observed up to the first retransmission only
+            lines.append("timing %s %s srv/f=gen:20:1 %s first" % (self.root(j), flags, rq("rrq", b"f", (("blksize", 8),)).hex()))
+            j += 1
         return lines
 
     def timing_oracle(self, line, impl):
@@ -574,7 +578,8 @@ class C05(ServerProp):
                            b"f/x", b"f/", b"f/.", b"", b"/", b".", b"sub/" + b"c" * 300, b"\xc3\xa9" * 130])
         vals = [b"0", b"1", b"7", b"8", b"65464", b"65465", b"65536", b"2147483648", b"4294967296", b"1099511627776", b"9223372036854775808",
                 b"18446744073709551615", b"18446744073709551616", b"18446744073709551614", b"-1", b"+5", b"abc", b""]
-        opts = [(rng.choice([b"blksize", b"BLKSIZE", b"timeout", b"windowsize", b"tsize", b"foo"]), rng.choice(vals)) for _ in range(rng.randint(1, 3))]
+        opts = [(rng.choice([b"blksize", b"BLKSIZE", b"timeout", b"windowsize", b"tsize", b"foo", b"\xc4\xb0", b"\xc4\xb0\xc4\xb0\xc4\xb0", b"\xc8\xba", b"bl\xc4\xb0size"]),
+                 rng.choice(vals)) for _ in range(rng.randint(1, 3))]
         return rq(kind, name, opts)
 
     def generate(self, tier, rng):
